@@ -39,6 +39,18 @@ type Tree struct {
 	cpf       *cpForkInfo
 	flip      *flipInfo
 	wfc       *wfcpInfo
+	trap2     *trap2Info
+}
+
+// trap2Info: two checkpoints c1 < c2 <= c1+4 on the main chain; side leaves
+// the main chain at base (below c1) and ends below c1; forkLeaf leaves the
+// main chain right after c1 and runs past c2's height with a header that is
+// not the checkpoint. A client on side gets ONE message from base through
+// both checkpoint heights: along forkLeaf it matches c1 and contradicts c2
+// (invalid branch: chain unchanged), along the main chain it matches both.
+type trap2Info struct {
+	c1, c2               int32
+	base, side, forkLeaf *Node
 }
 
 // cpForkInfo: checkpoint at height c on the main chain; sideA leaves the main
